@@ -95,6 +95,11 @@ def run_property(prop, tier, rule_fn, meta):
     crashed = None
     for cfg in configs:
         doc, info = extract.extract(cfg)
+        info['renamed_slots'] = doc.get('canon_notes') or []
+        for n in info['renamed_slots']:
+            if cfg == 'dev':
+                print('note: %s %s::%s is resolved to the renamed %s `%s` (role similarity %.2f)'
+                      % (n['kind'], n['owner'], n['reference'].rsplit('::', 1)[-1], n['kind'], n['current'].rsplit('::', 1)[-1], n['similarity']))
         infos.append(info)
         F = M.Facts(doc)
         ctx = Ctx(F, cfg, prop, tier)
@@ -193,6 +198,7 @@ def finish(prop, tier, seed, results, infos, analysed, stats, meta, t0, crashed,
             'bodies_analysed': sorted(short_fn(b) for b in analysed),
             'stats': stats,
             'extraction': [{'config': i['config'], 'cached': i['cached'], 'extract_s': i['extract_s']} for i in infos],
+            'renamed_slots_resolved': infos[0].get('renamed_slots', []) if infos else [],
         },
         'instances_holding': len(holds),
         'instances_violating': len([r for r in distinct.values() if r['verdict'] == 'VIOLATION']),
